@@ -416,6 +416,9 @@ func init() {
 		var history []string
 		unanswered := 0
 		send := func(m Meta, body []byte, expect int, what string) {
+			if unanswered >= 3 {
+				return // three requests without an answer have been reported: stop asking
+			}
 			o.Cases++
 			history = append(history, truncate(string(body), 4000))
 			if len(history) > 6 {
